@@ -18,16 +18,17 @@ open Tw.Packer
 
 /-! ## Ties to the source -/
 
-/-- The integer literals of `read_int`, in source order, are the ones the model was written
-against (masks `0x3f`, `0x80`, `0xf0`, `0x7f`, shifts `6 + 7*i`, 4 iterations). -/
-theorem tie_read_int :
-    Tw.Gen.Packer.lits_read_int = [0, 1, 6, 1, 63, 0, 4, 128, 0, 1, 3, 240, 0, 127, 6, 7, 1, 0] := by
-  decide
+/-- The significant constants of `read_int` (named constants resolved, sorted): the digit widths
+6 and 7 (6 twice: sign position and first-byte digits), the masks `0x3f`, `0x7f`, `0x80`, `0xf0` — the
+numbers the model was written against.  Robust against renaming a magic number into a constant or
+restructuring the loop; breaks when a mask or width changes. -/
+theorem tie_read_int : Tw.Gen.Packer.sig_read_int = [6, 6, 7, 63, 127, 128, 240] := by decide
 
-theorem tie_write_int :
-    Tw.Gen.Packer.lits_write_int = [5, 0, 1, 0, 63, 6, 0, 7, 0, 6, 0, 127, 7, 0, 7] := by decide
+/-- … of `write_int`: buffer size 5, widths 6/7 (and the bit positions 6/7 of `to_bit`), masks. -/
+theorem tie_write_int : Tw.Gen.Packer.sig_write_int = [5, 6, 6, 7, 7, 7, 63, 127] := by decide
 
-theorem tie_finish : Tw.Gen.Packer.lits_finish = [4, 0] ∧ Tw.Gen.Packer.lits_new_from_demo = [4, 0] := by
+/-- demo-mode `finish` and `new_from_demo`: the padding unit 4. -/
+theorem tie_finish : Tw.Gen.Packer.sig_finish = [4] ∧ Tw.Gen.Packer.sig_new_from_demo = [4] := by
   decide
 
 /-! ## Integers -/
